@@ -93,6 +93,7 @@ def run(ctx):
     ndiff = 0
     nsame = 0
     for k in sorted(ka & kb):
+        ctx.saw(Pa.fns[k])
         sa, sb = shape(Pa.fns[k]), shape(Pb.fns[k])
         if sa == sb:
             nsame += 1
